@@ -57,6 +57,8 @@ type schedCfg struct {
 	tail             time.Duration // virtual time to let pass at the end
 	readAllBuckets   bool
 	coldStart        bool
+	after            func(n *Node) // runs after all clients returned and the tail elapsed
+	noDupIntervals   bool          // fixed buckets: no two rows of one request in the same interval
 }
 
 var evCounter int64
@@ -95,7 +97,19 @@ func runSched(w *Workload, c schedCfg, seed uint64) *schedRun {
 			if ci < c.writers {
 				b := w.Buckets[r.Intn(len(w.Buckets))]
 				n := 1 + r.Intn(gc.MaxRows)
-				wr := &WriteReq{Variable: b.Variable, Parts: []*BucketWrite{{B: b, Recs: genRecs(r, gc, b, hot[b], ids, n)}}}
+				recs := genRecs(r, gc, b, hot[b], ids, n)
+				if c.noDupIntervals && !b.Variable {
+					seen := map[int64]bool{}
+					var u []Rec
+					for _, rc := range recs {
+						if t := IntervalStart(rc.T, b.TFDur()); !seen[t] {
+							seen[t] = true
+							u = append(u, rc)
+						}
+					}
+					recs = u
+				}
+				wr := &WriteReq{Variable: b.Variable, Parts: []*BucketWrite{{B: b, Recs: recs}}}
 				plans[ci] = append(plans[ci], cop{kind: "write", w: []*WriteReq{wr}, think: th})
 			} else {
 				b := w.Buckets[r.Intn(len(w.Buckets))]
@@ -195,6 +209,9 @@ func runSched(w *Workload, c schedCfg, seed uint64) *schedRun {
 		wg.Wait()
 		if c.tail > 0 {
 			simrt.Sleep(c.tail)
+		}
+		if c.after != nil {
+			c.after(n)
 		}
 		sr.probes["have-wal-writer"] = 1
 	})
